@@ -868,6 +868,12 @@ def run_program(prog, check_c04=False, check_c06=False, reset=True, options=None
         if not isinstance(batch, HBatch):
             env.events.append(["before", "debug", getattr(batch, "index", 0)])
             return
+        if env.check_c04 and not rec.started:
+            env.v("C04.maximal", "a batch was flushed before the awaited task %r had started" % (rec.tid,))
+        if batch.env is not env:
+            # a request left behind by an earlier computation on this scheduler: asynq may flush it whenever it flushes
+            env.events.append(["before", "foreign", batch.kind, batch.no])
+            return
         key = ["before", batch.kind, batch.no]
         if (batch.kind, batch.no) in env.flushed_once:
             env.v("C05.once", "batch %s#%d flushed twice by the scheduler" % (batch.kind, batch.no))
@@ -922,6 +928,9 @@ def run_program(prog, check_c04=False, check_c06=False, reset=True, options=None
     def after(batch):
         if not isinstance(batch, HBatch):
             env.events.append(["after", "debug", getattr(batch, "index", 0)])
+            return
+        if batch.env is not env:
+            env.events.append(["after", "foreign", batch.kind, batch.no])
             return
         env.events.append(["after", batch.kind, batch.no])
         if env.open_windows:
